@@ -37,6 +37,8 @@ def base_corpus():
     a(P("rec_nullary_first", E2 + V1 + ".decl r(x:number)\n.decl g()\n.output r\ng() :- r(x), v(x), e(x,_).\nr(x) :- e(x,x).\nr(y) :- g(), r(x), e(x,y).\n", "recursive", m=3))
     a(P("rec_two_nullary", E2 + ".decl a()\n.decl b()\n.decl r(x:number)\n.output r\n.output b\nr(x) :- e(x,x).\na() :- r(x), e(x,y), x != y.\nb() :- a(), r(_).\nr(y) :- r(x), a(), b(), e(x,y).\n", "recursive", m=2))
     a(P("rec_mutual_ternary", ".decl p0(x:number)\n.input p0\n.decl t(x:number)\n.input t\n.decl s(x:number,y:number,z:number)\n.input s\n.decl p(x:number)\n.decl q(x:number)\n.output p\np(x) :- p0(x).\nq(y) :- p(y), t(y).\np(z) :- p(x), q(y), s(x,y,z).\n", "recursive", m=2))
+    a(P("input_and_rules", E2 + ".decl p(x:number,y:number)\n.input p\n.output p\np(x,y) :- e(y,x).\np(1,1).\n", "positive", m=2))
+    a(P("input_and_recursive_rules", E2 + ".decl p(x:number,y:number)\n.input p\n.output p\np(x,z) :- p(x,y), e(y,z).\n", "recursive", m=2))
     a(P("multi_head", E2 + ".decl p(x:number)\n.decl q(x:number)\n.output p\n.output q\np(x), q(y) :- e(x,y).\n", "positive", m=3))
     a(P("disjunction", E2 + F2 + ".decl p(x:number)\n.output p\np(x) :- e(x,_) ; f(_,x).\n", "positive"))
     a(P("disjunction_nested", E2 + F2 + V1 + ".decl p(x:number)\n.output p\np(x) :- v(x), (e(x,_) ; f(x,_)).\n", "positive"))
@@ -165,12 +167,16 @@ def contract_corpus():
     a(P("choice_recursive", E2 + V1 + ".decl c(x:number,y:number) choice-domain y\n.output c\nc(x,x) :- v(x).\nc(x,z) :- c(x,y), e(y,z).\n", "choice", judge="choice", orders=O3))
     a(P("choice_recursive_swap", E2 + ".decl c(x:number,y:number) choice-domain x\n.output c\nc(x,y) :- e(x,y).\nc(y,x) :- c(x,y), e(y,_).\n", "choice", judge="choice", orders=O3))
     a(P("choice_spanning_tree", E2 + V1 + ".decl st(x:number,y:number) choice-domain y\n.output st\nst(x,x) :- v(x), x = 1.\nst(x,y) :- st(_,x), e(x,y).\n", "choice", judge="choice", orders=O3))
+    a(P("choice_mutual_indirect", ".decl seed(k:number,v:number)\n.input seed\n.decl step(u:number,v:number)\n.input step\n.decl ca(k:number,v:number) choice-domain k\n.decl cb(k:number,v:number)\n.output ca\n.output cb\nca(k,v) :- seed(k,v).\ncb(k,v) :- ca(k,u), step(u,v).\nca(k,v) :- cb(k,v).\n", "choice", judge="choice", orders=O3, m=2))
+    a(P("choice_mutual_three", E2 + V1 + ".decl ca(k:number,v:number) choice-domain k\n.decl cb(k:number,v:number)\n.decl cc(k:number,v:number) choice-domain v\n.output ca\n.output cb\n.output cc\nca(x,x) :- v(x).\ncb(k,w) :- ca(k,u), e(u,w).\ncc(k,w) :- cb(k,w).\nca(k,w) :- cc(k,w).\n", "choice", judge="choice", orders=O3, m=2))
     # subsumption (min-cost shapes): judge_arg = monotone-cost program
     D2 = ".decl e(x:number,d:number)\n.input e\n"
     a(P("subsume_min_nonrec", D2 + ".decl s(x:number,d:number) btree_delete\n.output s\ns(x,d) :- e(x,d).\ns(x,d1) <= s(x,d2) :- d2 < d1.\n", "subsume", judge="subsume", judge_arg=1, mode="L", n=3))
     a(P("subsume_max_nonrec", D2 + ".decl s(x:number,d:number) btree_delete\n.output s\ns(x,d) :- e(x,d).\ns(x,d1) <= s(x,d2) :- d1 < d2.\n", "subsume", judge="subsume", judge_arg=1, mode="L", n=3))
     a(P("subsume_min_umode", D2 + ".decl s(x:number,d:number) btree_delete\n.output s\ns(x,d) :- e(x,d).\ns(x,d1) <= s(x,d2) :- d2 < d1.\n", "subsume", judge="subsume", judge_arg=1, m=3))
     a(P("subsume_shortest_path", E2 + ".decl src(x:number)\n.input src\n.decl s(x:number,d:number) btree_delete\n.output s\ns(x,0) :- src(x).\ns(y,d+1) :- s(x,d), e(x,y), d < 3.\ns(x,d1) <= s(x,d2) :- d2 < d1.\n", "subsume", judge="subsume", judge_arg=1, m=2, max_loop=12))
+    a(P("subsume_mutual", E2 + ".decl src(x:number)\n.input src\n.decl dist(x:number,d:number) btree_delete\n.decl step(x:number,d:number)\n.output dist\ndist(x,0) :- src(x).\nstep(y,d+1) :- dist(x,d), e(x,y), d < 3.\ndist(y,d) :- step(y,d).\ndist(x,d1) <= dist(x,d2) :- d2 < d1.\n", "subsume", judge="subsume", judge_arg=1, m=2, max_loop=14))
+    a(P("subsume_mutual_rev_names", E2 + ".decl src(x:number)\n.input src\n.decl zdist(x:number,d:number) btree_delete\n.decl astep(x:number,d:number)\n.output zdist\nzdist(x,0) :- src(x).\nastep(y,d+1) :- zdist(x,d), e(x,y), d < 3.\nzdist(y,d) :- astep(y,d).\nzdist(x,d1) <= zdist(x,d2) :- d2 < d1.\n", "subsume", judge="subsume", judge_arg=1, m=2, max_loop=14))
     a(P("subsume_pairs_lex", ".decl e3(x:number,a:number,b:number)\n.input e3\n.decl s(x:number,a:number,b:number) btree_delete\n.output s\ns(x,a,b) :- e3(x,a,b).\ns(x,a1,b1) <= s(x,a2,b2) :- a2 <= a1, b2 <= b1.\n", "subsume", judge="subsume", judge_arg=0, m=2))
     # limitsize
     a(P("limit_tc_1", E2 + ".decl l(x:number,y:number)\n.limitsize l(n=1)\n.output l\nl(x,y) :- e(x,y).\nl(x,z) :- l(x,y), e(y,z).\n", "limit", judge="limit"))
@@ -200,6 +206,8 @@ def lattice_corpus():
     PL("lat_two_rules", EV + ".decl f(x:number,v:L)\n.input f\n.decl r(x:number, v:L<>)\n.output r\nr(x,v) :- e(x,v).\nr(x,v) :- f(x,v).\n", m=2)
     PL("lat_propagate", EV + G2 + ".decl r(x:number, v:L<>)\n.output r\nr(x,v) :- e(x,v).\nr(y,v) :- r(x,v), g(x,y).\n", libs=("max",), m=1, max_loop=12)
     PL("lat_propagate_join", EV + G2 + ".decl r(x:number, v:L<>)\n.output r\nr(x,v) :- e(x,v).\nr(y,@lub(v,w)) :- r(x,v), g(x,y), e(y,w).\n", libs=("max",), m=1, max_loop=12)
+    PL("lat_two_values", ".decl e3(x:number,a:L,b:L)\n.input e3\n.decl r(x:number, a:L<>, b:L<>)\n.output r\nr(x,a,b) :- e3(x,a,b).\n", m=2)
+    PL("lat_two_values_rec", ".decl e3(x:number,a:L,b:L)\n.input e3\n" + G2 + ".decl r(x:number, a:L<>, b:L<>)\n.output r\nr(x,a,b) :- e3(x,a,b).\nr(y,a,b) :- r(x,a,b), g(x,y).\n", libs=("max",), m=1, max_loop=12)
     PL("lat_two_keys", ".decl e3(x:number,y:number,v:L)\n.input e3\n.decl r(x:number, y:number, v:L<>)\n.output r\nr(x,y,v) :- e3(x,y,v).\n", m=2)
     return C
 
